@@ -247,3 +247,14 @@ Proof.
   split; [apply no_requested_waitingb_spec; vm_compute; reflexivity|].
   eexists _, _, _. split; vm_compute; reflexivity.
 Qed.
+
+(* the guards of "no other exception" are satisfiable as well *)
+Lemma fresh_answers : machine_answers fresh_machine /\ map_present ex_bins fresh_machine k3_map.
+Proof.
+  split.
+  - split; [discriminate|]. split; [vm_compute; congruence|].
+    apply (all_coresb_spec (fun s => is_member (cs_state s) AppState_members)). vm_compute. reflexivity.
+  - split.
+    + intros b [<-|[]]. exists ex_bin1. split; [reflexivity|vm_compute; congruence].
+    + intros b x y p [H|[H|[]]]; inversion H; subst; cbn; auto.
+Qed.
